@@ -53,6 +53,7 @@ var (
 	mu          sync.Mutex
 	armed       = map[string]*state{}
 	busyTimeout int // milliseconds; 0 = leave the connection as the code under test opened it
+	cacheSize   int // pages; 0 = leave it
 )
 
 func init() {
@@ -73,8 +74,13 @@ func init() {
 			}
 		}
 		mu.Lock()
-		bt := busyTimeout
+		bt, cs := busyTimeout, cacheSize
 		mu.Unlock()
+		if cs > 0 {
+			if _, err := c.Exec(fmt.Sprintf("PRAGMA cache_size = %d", cs), nil); err != nil {
+				return err
+			}
+		}
 		if bt > 0 {
 			if _, err := c.Exec(fmt.Sprintf("PRAGMA busy_timeout = %d", bt), nil); err != nil {
 				return err
@@ -91,6 +97,14 @@ func init() {
 func BusyTimeout(ms int) {
 	mu.Lock()
 	busyTimeout = ms
+	mu.Unlock()
+}
+
+// CacheSize gives every connection opened from now on a page cache of n pages (a host short of memory): statements then
+// read their pages from the file again instead of finding them cached, which is what harness/iofault needs to strike.
+func CacheSize(n int) {
+	mu.Lock()
+	cacheSize = n
 	mu.Unlock()
 }
 
